@@ -1233,7 +1233,7 @@ def variants_of(template_text):
             cols = {}
             for tok in line.split()[1:]:
                 k, v = tok.split("=", 1)
-                cols[k] = v.split("|") if "|" in v else v.split(",")
+                cols[k] = [x.replace("~", " ") for x in (v.split("|") if "|" in v else v.split(","))]
             n = len(next(iter(cols.values())))
             return [{k: v[i] for k, v in cols.items()} for i in range(n)]
     return [{}]
